@@ -1,5 +1,18 @@
-"""mechanical loop cutting: rewrite the n-th `for` of a function into init / one iteration / post"""
-import ast, inspect, textwrap, types
+"""mechanical loop cutting: rewrite the n-th `for` of a function into init / one iteration / post.
+
+The function's source is re-read with inspect + ast on every run and exactly one `for` statement is replaced by
+
+    __it = list(ITER); __vc.init(locals(), (<carried>,))          # obligation: state_0 holds at loop entry
+    for __k in __vc.indices(len(__it)):                           # the controller picks one k per run (or none)
+        (<carried>,) = __vc.enter(__k, __it, locals())            # havoc the loop-carried state to state_k
+        TARGET = __it[__k]; BODY
+        __vc.preserved(__k + 1, locals(), (<carried>,))           # obligation: state_{k+1}; the path ends here
+    (<carried>,) = __vc.leave(len(__it), __it, locals(), (<carried>,))   # "post" run: continue from state_n
+
+Nothing else of the function changes; it is compiled in the function's own module namespace.  Admitted only for loops
+without break / continue / return / else (checked on the AST).
+"""
+import ast, inspect, textwrap, hashlib
 
 
 class PathDone(BaseException):
@@ -7,14 +20,17 @@ class PathDone(BaseException):
 
 
 class LoopCtl:
-    """per-run controller; mode in {'init', ('iter', k), 'post'}; state(k, loc, it) -> tuple of carried values
-    and may set heap fields through loc; check(k, loc, carried) -> raises on failed obligation"""
+    """mode in {'init', ('iter', k), 'post'}; state(k, loc, it) -> tuple of carried values (may set heap fields through
+    loc); check(k, loc, carried) states the invariant as obligations"""
 
     def __init__(self, mode, state, check):
         self.mode, self.state, self.check = mode, state, check
         self.n = None
+        self.reached = False
+        self.missing = False
 
     def init(self, loc, carried):
+        self.reached = True
         if self.mode == "init":
             self.check(0, loc, carried)
             raise PathDone()
@@ -22,6 +38,9 @@ class LoopCtl:
     def indices(self, n):
         self.n = n
         if isinstance(self.mode, tuple):
+            if not 0 <= self.mode[1] < n:
+                self.missing = True  # the contract expects an iteration the loop does not have
+                raise PathDone()
             return [self.mode[1]]
         return []
 
@@ -39,12 +58,12 @@ class LoopCtl:
 
 
 def cut(fn, ordinal, carried, ctl_name="__vc"):
+    fn = getattr(fn, "__func__", fn)
     src = textwrap.dedent(inspect.getsource(fn))
     mod = ast.parse(src)
     fdef = mod.body[0]
     fdef.decorator_list = []
     loops = [n for n in ast.walk(fdef) if isinstance(n, ast.For)]
-    # ast.walk is BFS; order loops by source position
     loops.sort(key=lambda n: (n.lineno, n.col_offset))
     target = loops[ordinal]
     for n in ast.walk(target):
@@ -52,18 +71,18 @@ def cut(fn, ordinal, carried, ctl_name="__vc"):
             raise ValueError("loop not admissible for cutting")
     names = ", ".join(carried)
     tup = f"({names},)" if carried else "()"
+    lhs = tup if carried else "__none"
     tmpl = f"""
 __it = list(__ITER__)
 {ctl_name}.init(locals(), {tup})
 for __k in {ctl_name}.indices(len(__it)):
-    {tup if carried else '__none'} = {ctl_name}.enter(__k, __it, locals())
+    {lhs} = {ctl_name}.enter(__k, __it, locals())
     __TARGET__ = __it[__k]
     pass
     {ctl_name}.preserved(__k + 1, locals(), {tup})
-{tup if carried else '__none'} = {ctl_name}.leave(len(__it), __it, locals(), {tup})
+{lhs} = {ctl_name}.leave(len(__it), __it, locals(), {tup})
 """
     new = ast.parse(textwrap.dedent(tmpl)).body
-    # fill in ITER, TARGET, BODY
     new[0].value.args[0] = target.iter
     forn = new[2]
     forn.body[1].targets[0] = target.target
@@ -80,4 +99,25 @@ for __k in {ctl_name}.indices(len(__it)):
     ns = {}
     code = compile(mod, inspect.getsourcefile(fn) or "<cut>", "exec")
     exec(code, fn.__globals__, ns)
-    return ns[fdef.name], ast.unparse(fdef)
+    return ns[fdef.name], dict(source_sha256=hashlib.sha256(src.encode()).hexdigest(), loop_ordinal=ordinal, carried=list(carried))
+
+
+def run_cut(vc, fn, ordinal, carried, phase, state, check, args, kwargs=None):
+    """drive one phase of a cut loop.  phase: 'init' | int k | 'post'.  Returns ('post', result) for the post phase,
+    ('done', None) when the path ended in init/preserved.  Proves `loop_reached` false if the cut point is never met."""
+    newf, info = cut(fn, ordinal, carried)
+    mode = phase if phase in ("init", "post") else ("iter", int(phase))
+    ctl = LoopCtl(mode, state, check)
+    newf.__globals__["__vc"] = ctl
+    try:
+        r = newf(*args, **(kwargs or {}))
+    except PathDone:
+        if ctl.missing:
+            vc.prove("loop_has_the_expected_iteration", False, note=dict(iteration=phase, iterations=ctl.n))
+        return "done", None
+    finally:
+        newf.__globals__.pop("__vc", None)
+    if mode != "post":
+        vc.prove("loop_cut_point_reached", False)
+        return "done", None
+    return "post", r
